@@ -18,6 +18,7 @@ var (
 	flagReplay = flag.String("verif.replay", "", "replay file")
 	flagReps   = flag.Int("verif.reps", 1, "replay repetitions")
 	flagTrace  = flag.Bool("verif.trace", false, "print the boundary log of a replay")
+	flagProf   = flag.String("verif.profile", "", "development: generate from this profile only")
 )
 
 // TestProp is the search entry point: one property per process.
@@ -28,6 +29,19 @@ func TestProp(t *testing.T) {
 	}
 	env := NewEnv(prop.ID, *flagOut, *flagShard, *flagTier)
 	defer env.Write()
+	if *flagProf != "" {
+		cp := *prop
+		cp.Profiles = nil
+		for _, p := range prop.Profiles {
+			if p.Name == *flagProf {
+				cp.Profiles = append(cp.Profiles, p)
+			}
+		}
+		if len(cp.Profiles) == 0 {
+			t.Fatalf("no profile %q", *flagProf)
+		}
+		prop = &cp
+	}
 	rapid.Check(t, func(rt *rapid.T) {
 		switch prop.ID {
 		case "C11":
